@@ -76,6 +76,8 @@ class RF24:
     def open_tx_pipe(self, addr):
         self._reg_write_bytes(0x0A, addr)
         self._reg_write_bytes(0x10, addr)
+        if not self._reg_read(0) & 1:
+            self._reg_write(2, self._reg_read(2) | 1)
 
     def close_rx_pipe(self, pipe_num):
         if pipe_num < 0 or pipe_num > 5:
